@@ -729,9 +729,10 @@ def phase_flows(ck, rng, by_key, n, stats, pstats):
     mods = [m for m, _, _ in L.MODULES]
     weights = [(m, 3 if ".ml." not in m else 1) for m in mods]
     batch = _Batch(ck, stats)
-    for _ in range(n):
+    nx = max(1, n // 4)  # cross-MODULE sequences: the identical call through two modules of different schema versions
+    for idx in range(n + nx):
         try:
-            flow = L.gen_flow(rng, L._pick(rng, weights))
+            flow = L.gen_xmodule_flow(rng) if idx >= n else L.gen_flow(rng, L._pick(rng, weights))
             if flow is None:
                 pstats["not_generated"] += 1
                 continue
